@@ -84,7 +84,16 @@ func Y(site int32) {
 	// function-entry yields inside the ed25519 fork's curve package: its package-level tables are
 	// built on first use (a preemption must be able to land inside that)
 	must(instrumentDir(filepath.Join(*out, "patgo", "ed25519/internal/edwards25519"), "patgo/ed25519/internal/edwards25519"))
-	for _, pkg := range []string{"oprf", "zk/dleq", "group", "blindsign/blindrsa", "blindsign/blindrsa/internal/common", "blindsign/blindrsa/internal/keys", "expander"} {
+	for _, pkg := range []string{"group", "expander"} {
+		dir := filepath.Join(*out, "circl", pkg)
+		if _, err := os.Stat(dir); err == nil {
+			must(instrumentDir(dir, "circl/"+pkg))
+		}
+	}
+	// the small protocol packages of circl get statement-level yields like the repository:
+	// shared hash states and caches handed to them by pat-go are used statement by statement
+	stmtLvl = true
+	for _, pkg := range []string{"oprf", "zk/dleq", "blindsign/blindrsa", "blindsign/blindrsa/internal/common", "blindsign/blindrsa/internal/keys"} {
 		dir := filepath.Join(*out, "circl", pkg)
 		if _, err := os.Stat(dir); err == nil {
 			must(instrumentDir(dir, "circl/"+pkg))
